@@ -32,8 +32,9 @@ CLAUSES = {
     "B.reuse.matrix": "build_R_matrix_dimension_wise with the warm cache of the reuse run == cold computation, 1e-9 relative to the "
                       "largest entry (cached entries stem from other point pairs with the same widths: rounding differs), on every "
                       "component grid of the final scheme",
-    "B.reuse.surpluses": "after every round the surpluses of every component grid (whose right-hand sides agree) are equal, 1e-9",
-    "B.reuse.density": "after every round (if all right-hand sides agree) the combined densities at the probe points are equal, 1e-9",
+    "B.reuse.surpluses": "after every round the surpluses of every component grid (whose right-hand sides agree) are equal, 1e-8 "
+                         "(abs+rel; cached matrix entries differ by up to 1e-11 relative, amplified by the condition number)",
+    "B.reuse.density": "after every round (if all right-hand sides agree) the combined densities at the probe points are equal, 1e-8",
     "B.size.rhs_uniform": "calculate_B: small-grid (vectorised) and large-grid (per-sample) implementations agree, abs 1e-12",
     "B.size.rhs_dimwise": "calculate_B_dimension_wise: small-grid and large-grid implementations agree, abs 1e-12",
     "B.size.interpolation": "interpolate_points_component_grid: small-grid (vectorised) and large-grid (per-point) implementations "
@@ -164,14 +165,14 @@ def case_history(ctx, case):
             a0, a1 = s0["surpluses"].get(lv), s1["surpluses"].get(lv)
             if a0 is None or a1 is None:
                 bad.append((lv, "missing"))
-            elif lv not in tainted and not (a0.shape == a1.shape and close(a0, a1, rel=1e-9, abs_=1e-9)):
+            elif lv not in tainted and not (a0.shape == a1.shape and close(a0, a1, rel=1e-8, abs_=1e-8)):
                 bad.append((lv, float(np.max(np.abs(a0 - a1))) if a0.shape == a1.shape else "shape"))
             elif lv not in tainted and a0.size:
                 STATS["surplus"] = max(STATS["surplus"], float(np.max(np.abs(a0 - a1) / (1.0 + np.maximum(np.abs(a0), np.abs(a1))))))
         ctx.check("B.reuse.surpluses", not bad, DE + "solve_density_estimation_dimension_wise", size_tag, "round %d: surpluses differ on %s" % (rnd, bad[:3]))
         if rnd not in bad_round:
             if "dens" in s0 and "dens" in s1:
-                ctx.check("B.reuse.density", close(s0["dens"], s1["dens"], rel=1e-9, abs_=1e-9), ML + "interpolate_points_component_grid", size_tag,
+                ctx.check("B.reuse.density", close(s0["dens"], s1["dens"], rel=1e-8, abs_=1e-8), ML + "interpolate_points_component_grid", size_tag,
                           "round %d: max density difference %.3e" % (rnd, np.max(np.abs(s0["dens"] - s1["dens"]))))
             else:
                 ctx.check("B.reuse.density", False, ML + "interpolate_points_component_grid", size_tag + "-raises",
@@ -416,7 +417,7 @@ def run(ctx):
         case_size_tree(ctx, case)
     tsec["size_tree"] = time.time() - t0
     ctx.note("section seconds: %s" % {k: round(v, 1) for k, v in tsec.items()})
-    ctx.note("largest accepted reuse on/off deviation: surpluses %.2e (tolerance 1e-9), matrix %.2e of the largest entry (tolerance 1e-9)"
+    ctx.note("largest accepted reuse on/off deviation: surpluses %.2e (tolerance 1e-8), matrix %.2e of the largest entry (tolerance 1e-9)"
              % (STATS["surplus"], STATS["matrix"]))
 
 
